@@ -163,7 +163,9 @@ CalcM(a, m, n) ==
 (* searchable layer as "zero" (the mask is applied after bias / BatchNorm); element-wise ops with g(0) = 0,  *)
 (* pooling, flatten and concat preserve it; sigmoid (g(0) = 1/2) turns it into a constant that a consumer   *)
 (* still reads in the masked network although export() removes the channel.                                  *)
-ZeroPreservingOps == {"relu", "tanh", "silu", "drop", "id", "pool", "flat", "gsq"}
+\* "bns" = a standalone BatchNorm (features-propagating; the PIT version keeps the channels pruned upstream at zero after
+\* the normalisation, which would otherwise turn an exact zero into the constant beta - mean*gamma/sqrt(var))
+ZeroPreservingOps == {"relu", "tanh", "silu", "drop", "id", "pool", "flat", "gsq", "bns"}
 JoinCls(x, y) == IF x = "live" \/ y = "live" THEN "live" ELSE IF x = "const" \/ y = "const" THEN "const" ELSE "zero"
 RECURSIVE Cls(_, _, _)
 Cls(a, m, n) ==
@@ -265,7 +267,16 @@ KF_CatIntoOutput(a) ==
     \E n \in 1..N(a) : Op(a, n) = "cat" /\ n \in Comp(a, N(a) + 1) /\
         \E i \in DOMAIN Ins(a, n) : Prunable(a, Ins(a, n)[i])
 
-Supported(a) == ~KF_NonZeroOp(a) /\ ~KF_CatIntoOutput(a) /\ ~KF_Reuse(a) /\ ~KF_DwOrphan(a) /\ ~KF_FixedInMaskedGroup(a)
+\* A BatchNorm that directly follows a searchable layer is fused into it by the conversion; plinio REJECTS the model
+\* (ValueError "The first layer of the pair to be fused has multiple users") when that layer's output is also read by
+\* another node - a documented rejection, not a finding.  (A layer object with several call sites followed by a
+\* BatchNorm is the fusion-per-call-site topology of finding F51 and is not generated here.)
+RejectedFusion(a) ==
+    \E n \in 1..N(a) : Op(a, n) = "bns" /\ In1(a, n) # 0 /\ IsLayer(a, In1(a, n)) /\ Searchable(a, In1(a, n)) /\
+        \/ \E m \in 1..N(a) : m # n /\ In1(a, n) \in SeqSet(Ins(a, m))
+        \/ Cardinality(CallSites(a, Owner(a, In1(a, n)))) > 1
+
+Supported(a) == ~RejectedFusion(a) /\ ~KF_NonZeroOp(a) /\ ~KF_CatIntoOutput(a) /\ ~KF_Reuse(a) /\ ~KF_DwOrphan(a) /\ ~KF_FixedInMaskedGroup(a)
                 /\ ~KF_FixedAfterSearch(a) /\ ~KF_CatIntoAdd(a) /\ ~KF_MixedWidthGroup(a)
 
 (* ------------------------------ C09 invariants ------------------------- *)
